@@ -677,6 +677,13 @@ def register(reg):
             i = max([k for k, e in enumerate(tail) if e.name == "except"], default=-1)
             after = [e.name.split(":")[-1].rsplit(".", 1)[-1] if e.name.startswith("call:") else e.name for e in tail[i + 1:]]
             out.append(("failed_request_is_dequeued_then_queue_reassigned_then_evictions_closed", ("C05", "C07", "C06", "C04", "C09"), after == ["list.remove", "_assign_requests_to_connections", "_close_connections"]))
+            # from the property (C05): a request that leaves after the pool gave it a connection which it never drove (it was
+            # cancelled at its wait) must not strand that connection - a fresh one is neither available, idle nor closed, and
+            # nobody else will ever establish it
+            if pr is not None and not c.events("ci.handle_request"):
+                conn = c.new(pr, "PR.connection")
+                usable = z3.Or(conn.t == 0, F(c, conn, "CI.avail"), F(c, conn, "CI.idle"), F(c, conn, "CI.closed"))
+                out.append(("request_leaving_with_an_unused_assigned_connection_does_not_strand_it", ("C05", "C07"), usable))
             return out
 
     # ================================================================== PoolByteStream
